@@ -14,8 +14,8 @@ PROP = 'C05'
 LEVEL = 'exploration'
 SHARDS = {'quick': 4, 'thorough': 16}
 TIMEOUT = {'quick': 300, 'thorough': 3000}
-MAXN = {'quick': 5, 'thorough': 6}
-N_RANDOM = {'quick': 2500, 'thorough': 150000}
+MAXN = {'quick': 5, 'thorough': 7}
+N_RANDOM = {'quick': 2500, 'thorough': 500000}
 RULE = ('cases: (a) exhaustive: n in 2..N systems x priority pattern {all distinct, one tie, pairs of ties, all equal} x actor position x '
         'action {clean_up self; remove each earlier system; remove each later system; replace each other system by a different object under the same id (same / top / bottom priority); remove and re-register the SAME object (each system incl. the actor itself, same / top / bottom priority); register a new system with priority above all / '
         'just above the actor / equal / just below / below all} x action timestep {0,1}, one action per case, followed by two quiet '
